@@ -150,6 +150,30 @@ def timestampReadLegacy (r : PDur) : Res Dur := do
   let d ← Dur.newLegacy seconds nanos
   Dur.add ⟨0, 0⟩ d
 
+/-- is `UNIX_EPOCH + d` a representable `time::OffsetDateTime`? (crate `time` without `large-dates`:
+-9999-01-01T00:00:00 ..= 9999-12-31T23:59:59.999999999 UTC) -/
+def inOffsetDateTimeRange (d : Dur) : Bool :=
+  decide (-377705116800000000000 ≤ d.secs * 1000000000 + d.nanos) &&
+  decide (d.secs * 1000000000 + d.nanos ≤ 253402300799999999999)
+
+/-- `impl Display for time::Utc` (node/libs/concurrency/src/time.rs), **current** code:
+`match OffsetDateTime::UNIX_EPOCH.checked_add(self.0) { Some(t) => t.fmt(f), None => write!(f, "{}s since unix epoch", ..) }`.
+Used by the debug page for the timestamp of every stored `NetAddress`. `true` = rendered as a date. -/
+def utcDisplay (d : Dur) : Res Bool := .ok (inOffsetDateTimeRange d)
+
+/-- the same before the repair of F10: `(OffsetDateTime::UNIX_EPOCH + self.0).fmt(f)`, where `+` is
+`checked_add(..).expect("resulting value is out of range")` -/
+def utcDisplayLegacy (d : Dur) : Res Bool :=
+  if inOffsetDateTimeRange d then .ok true
+  else .panic "time::OffsetDateTime + Duration: resulting value is out of range"
+
+/-- `impl Debug for time::Utc`: `(std::time::SystemTime::UNIX_EPOCH + self.0).fmt(f)`; for a negative duration this is
+`SystemTime - |d|`, whose seconds are `0 - |secs|` and one less when there are sub-second nanos: below `i64::MIN`
+exactly for `secs = i64::MIN` with `nanos < 0` ("overflow when subtracting duration from instant"). -/
+def utcDebug (d : Dur) : Res Unit :=
+  if d.secs = I64_MIN ∧ d.nanos < 0 then .panic "SystemTime - Duration: overflow when subtracting duration from instant"
+  else .ok ()
+
 /-! ## BitVector -/
 structure PBitVec where
   size : Option Nat       -- uint64
